@@ -10,7 +10,8 @@ CONSTANTS Depth,
           WM, WV,       \* members / values used by WriteMember
           AM, AV,       \* members / values used by AssignMember
           RM,           \* members used by ReadMember
-          SWV, SAV      \* pattern numbers used by WriteStruct / AssignStruct
+          SWV, SAV,     \* pattern numbers used by WriteStruct / AssignStruct
+          RS            \* TRUE: ReadStruct is part of the alphabet
 VARIABLES hist, layout
 
 Idx(m) == CASE m = "p" -> 0 [] m = "q" -> 1 [] m = "r" -> 2
@@ -29,7 +30,7 @@ GNext == /\ UNCHANGED layout
             \/ \E v \in SAV : AssignStruct(Pat(v)) /\ Rec([act |-> "as", v |-> Pat(v)])
             \/ \E m \in WM, v \in WV : WriteMember(m, v) /\ Rec([act |-> "wm", m |-> m, v |-> v])
             \/ \E m \in AM, v \in AV : AssignMember(m, v) /\ Rec([act |-> "am", m |-> m, v |-> v])
-            \/ ReadStruct /\ Rec([act |-> "rs"])
+            \/ RS /\ ReadStruct /\ Rec([act |-> "rs"])
             \/ \E m \in RM : ReadMember(m) /\ Rec([act |-> "rm", m |-> m])
 GSpec == GInit /\ [][GNext]_<<svars, hist, layout>>
 
